@@ -89,9 +89,15 @@ func parseCompatibleRelease(version string) ([]*constraint, error) {
 		return nil, err
 	}
 
+	// the upper bound lives in the same epoch as the base
+	epoch := ""
+	if v.epoch != 0 {
+		epoch = strconv.Itoa(v.epoch) + "!"
+	}
+
 	// ~=2.2 is equivalent to >=2.2, <3.0
 	if len(v.release) == 1 {
-		upperVersion := fmt.Sprintf("%d.0", v.release[0]+1)
+		upperVersion := fmt.Sprintf("%s%d.0", epoch, v.release[0]+1)
 		return []*constraint{
 			{operator: ">=", version: version},
 			{operator: "<", version: upperVersion},
@@ -106,7 +112,7 @@ func parseCompatibleRelease(version string) ([]*constraint, error) {
 			prefix[i] = strconv.Itoa(v.release[i])
 		}
 		prefix[len(prefix)-1] = strconv.Itoa(v.release[len(prefix)-1] + 1)
-		upperVersion := strings.Join(prefix, ".") + ".0"
+		upperVersion := epoch + strings.Join(prefix, ".") + ".0"
 		return []*constraint{
 			{operator: ">=", version: version},
 			{operator: "<", version: upperVersion},
